@@ -24,6 +24,7 @@ func checkC33(w *World, r *Run) {
 		"the mux passed as website handler to MakeHostnameRoutingHandler registers GET and HEAD patterns only, is distinct from the API mux, and the fallback handler forwards to it", 5)
 	checkC33Rewrite(w, r, ruleRewrite)
 	checkC33Website(w, r, ruleRO, ruleMethods)
+	checkC33BucketFromHost(w, r)
 	r.NotCovered("percent-encoding equivalence of the two addressing styles inside net/http's ServeMux (library behaviour); that bucket names valid in a Host header equal those valid in a path")
 }
 
